@@ -196,3 +196,120 @@ def proj_fields(proj):
 
 def stmt_loc(s):
     return span_loc(s.get("span"))
+
+
+# ---------------------------------------------------------------------------
+# expression trees (def-use slices rendered as nested tuples)
+
+
+def _path_of(proj):
+    out = []
+    for p in proj:
+        if p["k"] == "field":
+            out.append(p.get("name") if p.get("name") is not None else p["i"])
+        elif p["k"] == "index":
+            out.append("[_%d]" % p["local"])
+        elif p["k"] == "cindex":
+            out.append("[%d]" % p["offset"])
+        elif p["k"] == "downcast":
+            out.append("as:%s" % p.get("variant"))
+    return tuple(out)
+
+
+def expr(du, op, depth=0):
+    """expression tree of an operand: const / arg / capture / call / bin / un / cast / agg / discr / multi"""
+    if "const" in op:
+        c = op["const"]
+        if "int" in c:
+            return ("const", int(c["int"]))
+        if "float_bits" in c:
+            import struct
+            bits = int(c["float_bits"])
+            if c.get("float_size") == 8:
+                return ("const", struct.unpack("<d", struct.pack("<Q", bits))[0])
+            return ("const", struct.unpack("<f", struct.pack("<I", bits))[0])
+        if "str" in c:
+            return ("const", c["str"])
+        if "fn" in c:
+            return ("fn", c.get("instance") or c["fn"])
+        return ("const", c.get("opaque") or c.get("ty"))
+    return expr_place(du, operand_place(op), depth)
+
+
+def expr_place(du, pl, depth=0):
+    if depth > 24:
+        return ("deep",)
+    r = du.root_place(pl)
+    body = du.body
+    if r[0] == "const":
+        e = expr(du, {"const": r[1]}, depth)
+        return e if not _path_of(r[2]) else ("path", e, _path_of(r[2]))
+    if r[0] == "arg":
+        path = _path_of(r[2])
+        if body.kind == "closure" and r[1] == 1 and path and isinstance(path[0], int):
+            caps = body.j.get("captures") or []
+            if path[0] < len(caps):
+                return ("capture", caps[path[0]]["name"], path[1:])
+        return ("arg", r[1], path)
+    if r[0] == "call":
+        t = r[1]
+        from .facts import callee_name
+        args = [expr(du, a, depth + 1) for a in t["args"]]
+        e = ("call", callee_name(t), tuple(args))
+        path = _path_of(r[2])
+        return e if not path else ("path", e, path)
+    if r[0] == "rv":
+        rv = r[1]["rv"]
+        k = rv["k"]
+        path = _path_of(r[2])
+        if k == "bin":
+            e = ("bin", rv["op"], expr(du, rv["l"], depth + 1), expr(du, rv["r"], depth + 1))
+        elif k == "un":
+            e = ("un", rv["op"], expr(du, rv["x"], depth + 1))
+        elif k == "cast":
+            e = ("cast", rv["kind"], expr(du, rv["x"], depth + 1), rv["to"]["s"])
+        elif k == "discr":
+            e = ("discr", expr_place(du, rv["place"], depth + 1))
+        elif k == "agg":
+            e = ("agg", rv.get("agg"), tuple(expr(du, o, depth + 1) for o in rv["ops"]))
+            # projection into an aggregate: pick the component
+            if path and isinstance(path[0], int) and path[0] < len(e[2]) and rv.get("agg") in ("tuple", "array"):
+                e, path = e[2][path[0]], path[1:]
+            elif path and rv.get("agg") == "adt" and path[0] in (rv.get("fields") or []):
+                e, path = e[2][rv["fields"].index(path[0])], path[1:]
+        elif k == "repeat":
+            e = ("repeat", expr(du, rv["x"], depth + 1), rv.get("n"))
+        else:
+            e = ("rv", k)
+        return e if not path else ("path", e, path)
+    return ("multi", r[1], _path_of(r[2]))
+
+
+def show(e, depth=0):
+    """compact printable form of an expression tree"""
+    if not isinstance(e, tuple):
+        return repr(e)
+    k = e[0]
+    if k == "const":
+        return repr(e[1])
+    if k == "arg":
+        return "arg%d%s" % (e[1], "".join("." + str(p) for p in e[2]))
+    if k == "capture":
+        return "%s%s" % (e[1], "".join("." + str(p) for p in e[2]))
+    if k == "call":
+        return "%s(%s)" % (e[1].split("::")[-1] if depth > 3 else e[1], ", ".join(show(a, depth + 1) for a in e[2]))
+    if k == "bin":
+        return "(%s %s %s)" % (show(e[2], depth + 1), e[1], show(e[3], depth + 1))
+    if k == "un":
+        return "%s(%s)" % (e[1], show(e[2], depth + 1))
+    if k == "cast":
+        return "(%s as %s)" % (show(e[2], depth + 1), e[3])
+    if k == "path":
+        return "%s%s" % (show(e[1], depth + 1), "".join("." + str(p) for p in e[2]))
+    if k == "discr":
+        return "discr(%s)" % show(e[1], depth + 1)
+    if k == "agg":
+        return "%s[%s]" % (e[1], ", ".join(show(a, depth + 1) for a in e[2]))
+    if k == "fn":
+        return "fn:%s" % e[1]
+    return str(e)
